@@ -5,6 +5,7 @@ package harness
 // real blocks, a multi-step history that random generation is unlikely to hit.
 
 import (
+	"fmt"
 	"os"
 	"sort"
 	"strings"
@@ -446,6 +447,38 @@ func init() {
 func init() {
 	// C18: a fee paid in an 18-decimal asset whose only pool holds one base unit of it: converting ten whole tokens through that
 	// pool makes the pool arithmetic itself panic (the reserve ratio rounds to zero). Several sizes of pool and fee.
+	// C02: anybody may register an asset-profile entry (MsgAddEntry has no authority check). A stranger registers the share denom of
+	// the NEXT pool with commitments switched off, before that pool exists; then the pool is created by governance and joined. Either
+	// the creation is refused, or every share it mints is committed: supply, pool total, committed sum and custody stay equal.
+	scenarios["c02-preregistered-share-denom"] = func(sc *Scn) {
+		w := sc.w
+		stranger, joiner := w.Accts[3], w.Accts[1]
+		next := uint64(len(sc.std.Pools) + 1)
+		share := ammtypes.GetPoolShareDenom(next)
+		for _, commit := range []bool{false, true} {
+			sc.Tx("ap.addEntry", stranger, J{"denom": share, "commitEnabled": commit},
+				&aptypes.MsgAddEntry{Creator: stranger.Addr.String(), BaseDenom: share, Denom: share, Decimals: 18, DisplayName: "share", CommitEnabled: commit, WithdrawEnabled: true})
+			gov := sdk.MustAccAddressFromBech32(w.Gov)
+			w.Seed(func(ctx sdk.Context) {
+				w.Fund(ctx, gov, sdk.NewCoins(sdk.NewCoin("uatom", math.NewInt(2_000_000_000_000)), sdk.NewCoin(w.usdc(), math.NewInt(2_000_000_000_000))))
+			})
+			assets := []ammtypes.PoolAsset{{Token: sdk.NewCoin("uatom", math.NewInt(1_000_000_000)), Weight: math.NewInt(10), ExternalLiquidityRatio: math.LegacyNewDec(2)},
+				{Token: sdk.NewCoin(w.usdc(), math.NewInt(5_000_000_000)), Weight: math.NewInt(10), ExternalLiquidityRatio: math.LegacyNewDec(2)}}
+			sort.Slice(assets, func(i, j int) bool { return strings.Compare(assets[i].Token.Denom, assets[j].Token.Denom) <= 0 })
+			created := govApply(w, &ammtypes.MsgCreatePool{Sender: w.Gov, PoolParams: ammtypes.PoolParams{UseOracle: false, SwapFee: D("0.002"), FeeDenom: w.usdc()}, PoolAssets: assets})
+			sc.stats[fmt.Sprintf("c02/createPool/commit=%v/created=%v", commit, created)]++
+			sc.Empty(5 * time.Second)
+			sc.Tx("amm.join", joiner, J{"pool": next, "maxIn": [][]string{}, "shareOut": "0", "single": false},
+				&ammtypes.MsgJoinPool{Sender: joiner.Addr.String(), PoolId: next, MaxAmountsIn: sdk.NewCoins(sdk.NewCoin("uatom", math.NewInt(200_000_000)), sdk.NewCoin(w.usdc(), math.NewInt(1_000_000_000))),
+					ShareAmountOut: math.NewIntWithDecimal(1, 17)})
+			sc.Empty(5 * time.Second)
+			if created {
+				next++
+				share = ammtypes.GetPoolShareDenom(next)
+			}
+		}
+	}
+
 	// C18: an exact-out request passes its dry run while it is a small part of a very unevenly weighted pool (19 : 1); a liquidity
 	// provider's exit later in the same block leaves the out-side barely above the request; at the end of the block the estimate
 	// (balance / (balance - out)) ^ 19 overflows the 18-digit decimals inside the power routine. The request must fail alone.
